@@ -81,8 +81,8 @@ func C03(tier string) {
 			}
 		}
 		nreq := len(reqs)
-		if quick && nreq > 4000 {
-			nreq = 4000 // the domain lists atoms first, then pairs, then triples: quick covers the first 4000 requirements
+		if quick && nreq > 8000 {
+			nreq = 8000 // the domain lists atoms first, then pairs, then triples: quick covers the first 8000 requirements
 		}
 		cvers := make([]*semver.Version, len(cands))
 		for i, c := range cands {
